@@ -317,6 +317,145 @@ def run_el(case):
     return out
 
 
+# ------------------------------------------------------------------ representation axis: memory layout x dtype x copy flag
+
+LAYOUTS = ('C', 'F', 'T-view', 'stack3d-slice', 'column-slice')
+DTYPES = ('float64', 'float32', 'int64')
+SENT = 77        # fills the part of the base buffer that is not the argument
+
+
+def make_arg(M, layout, dt):
+    """(argument, base buffer): an n x n array with content M in the given memory layout / dtype.
+    C: C-contiguous; F: Fortran order; T-view: transposed view of a C array; stack3d-slice: X[:, :, 1] of an n x n x 3 stack;
+    column-slice: Y[:, ::2] of an n x 2n array.  Only 'C' is C-contiguous (`ravel()` of the others is a copy)."""
+    M = np.array(M, dtype=dt); n = len(M)
+    if layout == 'C':
+        A = np.ascontiguousarray(M).copy(); return A, A
+    if layout == 'F':
+        A = np.asfortranarray(M).copy(order='F'); return A, A
+    if layout == 'T-view':
+        B = np.ascontiguousarray(M.T).copy(); return B.T, B
+    if layout == 'stack3d-slice':
+        X = np.full((n, n, 3), SENT, dtype=dt); X[:, :, 1] = M; return X[:, :, 1], X
+    Y = np.full((n, 2 * n), SENT, dtype=dt); Y[:, ::2] = M; return Y[:, ::2], Y
+
+
+def outside_untouched(layout, base):
+    if layout == 'stack3d-slice':
+        return bool((base[:, :, 0] == SENT).all() and (base[:, :, 2] == SENT).all())
+    if layout == 'column-slice':
+        return bool((base[:, 1::2] == SENT).all())
+    return True
+
+
+def tp_expected(F, n, p):
+    """threshold_proportional for a matrix whose nonzero off-diagonal weights are pairwise distinct (up to exact symmetry):
+    the result is then unique.  F: row-major Fractions, p: Fraction of the double."""
+    G = [[Fr(0) if i == j else F[i * n + j] for j in range(n)] for i in range(n)]
+    sym = all(G[i][j] == G[j][i] for i in range(n) for j in range(n))
+    cells = [(i, j) for i in range(n) for j in range(n) if G[i][j] != 0 and (i < j or not sym)]
+    cells.sort(key=lambda c: -G[c[0]][c[1]])
+    en = round_half_away(Fr((n * n - n) * float(p) / (2 if sym else 1)))
+    R = [[Fr(0)] * n for _ in range(n)]
+    for (i, j) in cells[:max(en, 0)]:
+        R[i][j] = G[i][j]
+        if sym:
+            R[j][i] = G[i][j]
+    return R
+
+
+def run_repr(case):
+    """case: n, W (rat strings; integer-valued iff 'int' in dtypes), dtypes, thr, ps.  Every utility x layout x dtype x copy flag:
+    copy=True leaves argument and base buffer bit-identical and returns a new object with the right content;
+    copy=False returns the argument itself, which then holds the right content, the rest of the base buffer untouched."""
+    bct = import_bct()
+    n = case['n']; F = [Fr(w) for w in case['W']]; Ws = ','.join(case['W'])
+    out = {'viol': [], 'lean': [], 'evals': 0, 'keys': [], 'dist': {}, 'sample': None}
+    V = out['viol']
+    M = [[F[i * n + j] for j in range(n)] for i in range(n)]
+    Mf = [[float(x) for x in r] for r in M]
+    amax = max(abs(f) for f in F)
+    jobs = [('threshold_absolute', bct.threshold_absolute, (float(Fr(t)),), 'ta:' + t) for t in case['thrs']]
+    jobs += [('threshold_proportional', bct.threshold_proportional, (float(Fr(pp)),), 'tp:' + pp) for pp in case['ps']]
+    jobs += [('binarize', bct.binarize, (), 'bin'), ('normalize', bct.normalize, (), 'nrm'), ('invert', bct.invert, (), 'inv')]
+    jobs += [('weight_conversion', bct.weight_conversion, (w,), 'wc:' + w) for w in ('binarize', 'normalize', 'lengths')]
+
+    def expected(tag, dt):
+        """independent recomputation in the argument's dtype -> ('val', array) | ('int-division',) | ('int-truncation', exact floats)"""
+        E = np.array(Mf, dtype=dt)
+        isint = dt == 'int64'
+        if tag.startswith('ta:'):
+            thr = Fr(tag[3:])
+            return ('val', np.array([[M[i][j] if (i != j and M[i][j] >= thr) else 0 for j in range(n)] for i in range(n)], dtype=float).astype(dt))
+        if tag.startswith('tp:'):
+            R = tp_expected([Fr(x) for x in E.astype(float).ravel().tolist()], n, Fr(float(Fr(tag[3:]))))
+            return ('val', np.array([[float(x) for x in r] for r in R], dtype=float).astype(dt))
+        if tag in ('bin', 'wc:binarize'):
+            return ('val', (E != 0).astype(dt))
+        if tag in ('nrm', 'wc:normalize'):
+            if isint:
+                return ('int-division',)                      # `W /= m` on an integer array: NumPy refuses the in-place true division
+            return ('val', (E / np.abs(E).max()).astype(dt))   # elementwise quotient, correctly rounded in dt
+        ex = np.zeros((n, n), dtype=float if isint else dt)
+        nz = E != 0
+        ex[nz] = (1.0 / E[nz].astype(float)) if isint else (np.array(1, dtype=dt) / E[nz])
+        if isint and any(abs(f) > 1 for f in F):
+            return ('int-truncation', ex)                     # `W[E] = 1. / W[E]` stores floats into an integer array
+        return ('val', ex.astype(dt))
+
+    for fname, f, args, tag in jobs:
+        for dt in case['dtypes']:
+            ex = expected(tag, dt)
+            for layout in LAYOUTS:
+                for cp in (True, False):
+                    A, base = make_arg(Mf, layout, dt)
+                    A_before = A.copy(); base_before = base.copy()
+                    st, R = call(f, A, *args, copy=cp, t=5)
+                    out['evals'] += 1
+                    key = 'repr:%s:%s' % (layout, dt); out['dist'][key] = out['dist'].get(key, 0) + 1
+                    cond = {'layout': layout, 'dtype': dt, 'copy': cp, 'c_contiguous': layout == 'C'}
+                    det = {'kind': 'repr', 'n': n, 'W': Ws, 'function': fname, 'args': [str(a) for a in args], 'layout': layout, 'dtype': dt, 'copy': cp,
+                           'thrs': case['thrs'], 'ps': case['ps']}
+                    if st == 'timeout':
+                        out['dist']['timeouts'] = out['dist'].get('timeouts', 0) + 1; continue
+                    if ex[0] == 'int-division':
+                        # legitimate rejection: must raise NumPy's casting error and leave the argument alone
+                        if st == 'exc' and ('UFuncTypeError' in R or 'Cannot cast ufunc' in R or 'casting' in R.lower()):
+                            out['dist']['int_inplace_division_rejected'] = out['dist'].get('int_inplace_division_rejected', 0) + 1
+                            if not same_bits(np.ascontiguousarray(base), np.ascontiguousarray(base_before)):
+                                V.append((fname, 'rejected-call-argument-untouched', det, cond))
+                        else:
+                            V.append((fname, 'int-division-outcome', dict(det, outcome=str(R)[:200]), cond))
+                        continue
+                    if st == 'exc':
+                        V.append((fname, 'raises', dict(det, exception=R), cond)); continue
+                    if not isinstance(R, np.ndarray) or R.shape != (n, n):
+                        V.append((fname, 'shape', det, cond)); continue
+                    if ex[0] == 'int-truncation':
+                        if not np.array_equal(R.astype(float), ex[1]):
+                            V.append((fname, 'int-dtype-truncates', dict(det, result=frs_str(fmat(R)), exact=frs_str(fmat(ex[1]))), {'dtype': dt}))
+                        continue
+                    want = ex[1]
+                    if cp:
+                        if not same_bits(np.ascontiguousarray(base), np.ascontiguousarray(base_before)):
+                            V.append((fname, 'copy-true-argument-untouched', dict(det, after=frs_str(fmat(A))), cond))
+                        if R is A or np.shares_memory(R, base):
+                            V.append((fname, 'copy-true-new-object', det, cond))
+                        if not eq_nan(R, want):
+                            V.append((fname, 'layout-content', dict(det, result=frs_str(fmat(R)), expected=frs_str(fmat(want))), cond))
+                    else:
+                        if R is not A:
+                            V.append((fname, 'copy-false-returns-argument', det, cond))
+                        if not eq_nan(A, want):
+                            V.append((fname, 'copy-false-argument-holds-result', dict(det, argument_after=frs_str(fmat(A)), expected=frs_str(fmat(want))), cond))
+                        if not outside_untouched(layout, base):
+                            V.append((fname, 'copy-false-base-buffer-outside-view-untouched', det, cond))
+                    if layout != 'C' and not eq_nan(A_before, want):
+                        out['keys'].append(digest(['repr', case['W'], tag, layout, dt, cp]))
+    out['sample'] = {'function': 'representation axis', 'n': n, 'W': Ws, 'layouts': list(LAYOUTS), 'dtypes': case['dtypes']}
+    return out
+
+
 # ------------------------------------------------------------------ teachers_round
 
 def run_round(xs):
@@ -480,6 +619,37 @@ MALFORMED = ['tprop n=3 W=0,1,1,0 p=1/2 order=0,1', 'tprop n=2 W=0,1,1,0 p=1/0 o
              'frobnicate n=2 W=0,1,1,0', '']
 
 
+def gen_repr_cases(rs, quick):
+    """matrices for the representation axis: pairwise distinct off-diagonal magnitudes (unique threshold_proportional result), signed or
+    non-negative, symmetric and not, nonzero diagonal, some zero cells; integer-valued ones run in all three dtypes, dyadic ones in the float dtypes"""
+    cases = []
+    for n in (2, 3, 4, 5) if quick else (2, 3, 4, 5, 6, 7):
+        for rep_ in range(3 if quick else 8):
+            for intval in (True, False):
+                for sym in (True, False):
+                    m = n * n
+                    mags = [int(x) for x in rs.permutation(np.arange(1, 4 * m))[:m]]
+                    W = [[Fr(mags[i * n + j]) if intval else Fr(mags[i * n + j], 8) for j in range(n)] for i in range(n)]
+                    signed = rep_ % 3 == 2           # signed matrices: every utility except threshold_proportional (non-negative domain)
+                    for i in range(n):
+                        for j in range(n):
+                            if i != j and rs.rand() < .25:
+                                W[i][j] = Fr(0)
+                            elif signed and rs.rand() < .4:
+                                W[i][j] = -W[i][j]
+                    if sym:
+                        for i in range(n):
+                            for j in range(i):
+                                W[i][j] = W[j][i]
+                    flat = [W[i][j] for i in range(n) for j in range(n)]
+                    offd = sorted({W[i][j] for i in range(n) for j in range(n) if i != j})
+                    thrs = [dy(offd[len(offd) // 2]), dy(Fr(1, 2))] if offd else [dy(Fr(1, 2))]
+                    cnt = (n * n - n) // (2 if sym else 1)
+                    ps = [] if signed else [dy(Fr(int(rs.randint(1, 64)), 64)), dy(Fr(1, 2))]
+                    cases.append({'n': n, 'W': [dy(x) for x in flat], 'dtypes': list(DTYPES) if intval else ['float64', 'float32'], 'thrs': thrs, 'ps': ps})
+    return cases
+
+
 def chunks(xs, k):
     return [xs[i:i + k] for i in range(0, len(xs), k)]
 
@@ -493,10 +663,10 @@ def main():
                       'integer 1..9, dyadic k/8, sparse support, full distinct, binary, nonzero diagonal, near-symmetric within / outside the np.allclose tolerance, '
                       'one asymmetric cell, all-zero, only-diagonal; p = k/64 for k=0..64, the (nearest double of the) p with p*count on .5 for ud=1 and 2, decimal p; '
                       'thorough tier: every n<=3 matrix with empty diagonal over {0,1,2,3} (n=3) / {0,1,2,3,5} (n=2) x all p=k/64 (model on every 8th for n=3). Elementwise utilities on signed integer/dyadic/power-of-two '
-                      'matrices, thresholds incl. every entry value; copy=True/default/False on every call; teachers_round on k/2, k/4 grids, .5 +- ulp, extremes. '
+                      'matrices, thresholds incl. every entry value; copy=True/default/False on every call; representation axis: every utility x memory layout {C, Fortran, transposed view, slice X[:,:,1] of a 3-D stack, column slice Y[:,::2]} x dtype {float64, float32, int64} x copy flag on matrices with pairwise distinct weights; teachers_round on k/2, k/4 grids, .5 +- ulp, extremes. '
                       'non-trivial = distinct (matrix, p) where threshold_proportional kept some and dropped some connections; (matrix, thr) where threshold_absolute '
                       'removed some but not all off-diagonal entries; signed nonzero matrices for the elementwise utilities; exact half-way points for teachers_round')
-    ck.assumptions += ['float64 square matrices (integer dtype makes `W /= max` raise and truncates 1/w: outside the domain)',
+    ck.assumptions += ['square matrices; the exact predicates and the model use float64, the representation axis adds float32 and int64 (int64: `normalize` must raise NumPy\'s casting error; `invert` silently truncates 1/w - known finding)',
                        'threshold_proportional on non-negative matrices (property quantifier); weights are small integers or dyadic rationals so that every comparison is exact',
                        'the documented count round(p * count) is evaluated as the IEEE double expression (n*n-n)*p/ud and rounded half away from zero exactly; '
                        'the Lean model is compared only where that double product is exact',
@@ -507,7 +677,7 @@ def main():
     if ck.tier == 'thorough' and ok:
         ck.leanchecker(['BctVerif.Props.C17', MODEL])
     rs = ck.rs
-    tp_cases, par_cases, el_cases, rd_cases = [], [], [], []
+    tp_cases, par_cases, el_cases, rd_cases, rp_cases = [], [], [], [], []
     if ck.replay:
         rp = json.load(open(ck.replay)); c = rp['case']
         if c.get('kind') == 'tp':
@@ -519,6 +689,8 @@ def main():
             el_cases.append({'n': c['n'], 'W': c['W'].split(','), 'thrs': [c['thr']] if 'thr' in c else thr_values(F, rs), 'bad_wcm': ['invert']})
         elif c.get('kind') == 'round':
             rd_cases.append([c['x']])
+        elif c.get('kind') == 'repr':
+            rp_cases.append({'n': c['n'], 'W': c['W'].split(','), 'dtypes': [c['dtype']], 'thrs': c['thrs'], 'ps': c['ps']})
     else:
         for n in range(2, 9):
             ps = p_values(n, quick, rs)
@@ -539,11 +711,12 @@ def main():
                     W2 = list(W); W2[0] = Fr(dg[0]); W2[3] = Fr(dg[1])
                     el_cases.append({'n': 2, 'W': [dy(x) for x in W2], 'thrs': thr_values(W2, rs), 'bad_wcm': ['invert']})
         rd_cases = chunks(round_inputs(rs, quick), 50)
+        rp_cases = gen_repr_cases(rs, quick)
     ck.count('tp_matrix_chunks', len(tp_cases)); ck.count('elementwise_matrices', len(el_cases)); ck.count('round_chunks', len(rd_cases))
     for c in tp_cases:
         ck.count('tp_kind:' + c['kind'].split('/')[0]); ck.count('n=%d' % c['n'])
     results = []
-    for fn, cs in ((run_tp, tp_cases), (run_tp_param, par_cases), (run_el, el_cases), (run_round, rd_cases)):
+    for fn, cs in ((run_tp, tp_cases), (run_tp_param, par_cases), (run_el, el_cases), (run_round, rd_cases), (run_repr, rp_cases)):
         results += pmap(fn, cs)
     items = []
     for r in results:
